@@ -358,6 +358,9 @@ def _respond(req, resp, out, allow):
         resp.status = out['status']
     elif out.get('fail') == 'raise':
         raise falcon.HTTPError(out['status'])
+    elif out.get('fail') == 'raise_status':
+        # bails out by raising HTTPStatus (an exception: the exchange has not "succeeded"); the Allow header rides on it
+        raise falcon.HTTPStatus(out['status'], headers={'Allow': allow} if allow is not None else None)
 
 
 def _make_resource(app_d, asyn):
@@ -496,7 +499,7 @@ def described_success(app_d, method):
         return False  # 404 / 400 are raised by the framework
     if t in ('route', 'route_opt') and method != 'OPTIONS' and method not in SUPPORTED:
         return False  # 405
-    if responder_reached(app_d, method) and app_d['outcome'].get('fail') == 'raise':
+    if responder_reached(app_d, method) and app_d['outcome'].get('fail') in ('raise', 'raise_status'):
         return False
     return True
 
@@ -564,6 +567,7 @@ OUTCOMES = [
     {'fail': None, 'preset': {PRETTY[ACAO]: 'https://preset.example'}},
     {'fail': 'raise', 'status': 403, 'preset': {}},
     {'fail': 'error', 'status': 403, 'preset': {}},
+    {'fail': 'raise_status', 'status': 204, 'preset': {}},
 ]
 # (target, allow) x outcome; static and unrouted have no generated responder
 TARGET_CELLS = (
@@ -717,8 +721,8 @@ _RAW = st.fixed_dictionaries({
                                'unrouted']),
     'allow': st.one_of(st.sampled_from([None, None, None, None, 'GET', 'GET, POST, PUT', 'OPTIONS, GET', '*']), _hval),
     'preset': st.one_of(st.just({}), st.just({}), _PRESET),
-    'fail': st.sampled_from([None, None, None, 'raise', 'error']),
-    'status': st.sampled_from([400, 403, 404, 409, 500, 503]),
+    'fail': st.sampled_from([None, None, None, 'raise', 'error', 'raise_status']),
+    'status': st.sampled_from([400, 403, 404, 409, 500, 503, 204, 200]),
     'before': st.lists(_MW_OUTER, max_size=2),
     'after': st.lists(_MW_INNER, max_size=2),
     'independent': st.sampled_from([True, True, False]),
